@@ -392,7 +392,12 @@ class XMLFormatter(GraphtageFormatter):
             inserted_text: Optional[Edit] = node.edit.text_edit
         else:
             inserted_text = None
-        if node._children._children or (node.text is not None and '\n' in node.text.object):
+        children: ListNode = node._children
+        # an element without children can still have children inserted into it
+        has_children = bool(children._children) or (
+            isinstance(children, EditedTreeNode) and any(e.has_non_zero_cost() for e in children.edit_list)
+        )
+        if has_children or (node.text is not None and '\n' in node.text.object):
             printer.write('>')
             if node.text is not None:
                 self.print(printer, node.text)
